@@ -6,6 +6,7 @@
 //! real tarpc objects, writes an ndjson event trace (validated by TLC) and a JSON report.
 
 mod exec;
+mod chain;
 mod client;
 mod hooks;
 mod keys;
@@ -133,6 +134,7 @@ fn main() {
         "hooks" => hooks::run(&a),
         "stubs" => stubs::run(&a),
         "wire" => wire::run(&a),
+        "chain" => chain::run(&a),
         f => {
             eprintln!("unknown family {f}");
             std::process::exit(2);
